@@ -28,7 +28,8 @@ RULE = ("histories of 5-40 operations from {randomize (same or NEW antenna "
         "follows at least one mutation.  "
         "Path-loss matrices also come with integer dtype (all ones, 0/1 masks) "
         "next to fractional external-interference path loss. "
-        "A third of the transmissions use corrupt_concatenated_data. ")
+        "A third of the transmissions use corrupt_concatenated_data. "
+        "Ops include a re-initialisation the object must refuse (and survive unchanged), post-filters of mixed real / identity / complex kinds, and last_noise is re-read after every later op. ")
 ASSUMPTIONS = ["post filters are square (Nr_k x Nr_k): the per-receiver split "
                "by antenna count is then unambiguous",
                "the number of users is not changed while a path loss is in "
@@ -173,6 +174,7 @@ def do_corrupt(ctx, obj, m, rng, hist):
     x = np.vstack(stacked)
     y = m.big() @ x
     ln = obj.last_noise
+    m.noise_of_last_tx = None if ln is None else np.array(ln, copy=True)
     if m.noise is None:
         ctx.ev("last-noise", ln is None, cls="not-None-without-noise", detail=d())
     else:
@@ -233,7 +235,7 @@ def case_history(ctx, rng, idx):
             op = str(rng.choice(
                 ["randomize", "randomize-new", "init", "init-new", "pathloss", "pathloss",
                  "pathloss=None", "noise", "filter", "filter=None", "read1", "read1",
-                 "readall", "corrupt", "corrupt"]))
+                 "readall", "corrupt", "corrupt", "rejected-init"]))
         had_filter = m.W is not None
         if op in ("randomize", "randomize-new", "init", "init-new"):
             newcfg = op.endswith("-new") or m.raw is None
@@ -268,6 +270,31 @@ def case_history(ctx, rng, idx):
                 ctx.ev("views-coherent", False, cls="%s:raised-%s" % (op, type(e).__name__),
                        detail={"op": op, "history": hist[-12:], "exc": repr(e)})
                 return
+        elif op == "rejected-init":
+            # a re-initialisation the object refuses (matrix that does not match the
+            # stated antennas, or a wrong user count): the object stays as it was
+            K2, Nr2, Nt2, NtE2 = gen_config(rng, ext)
+            bad = rand_c(rng, int(Nr2.sum()) + 1, int(Nt2.sum()) + int(sum(NtE2)) + 2)
+            kbad = K2 if rng.random() < 0.5 else K2 + 1
+            try:
+                if ext:
+                    obj.init_from_channel_matrix(bad, Nr2, Nt2, kbad, nte_arg(NtE2))
+                else:
+                    obj.init_from_channel_matrix(bad, Nr2, Nt2, kbad)
+                ctx.ev("views-coherent", False, cls="rejected-init:accepted",
+                       detail={"history": hist[-12:], "shape": bad.shape, "Nr": Nr2, "Nt": Nt2})
+                return
+            except ValueError:
+                ctx.ev("views-coherent", int(obj.K) == m.K and
+                       np.array_equal(np.asarray(obj.Nr), m.Nr) and
+                       np.array_equal(np.asarray(obj.Nt), m.Nt),
+                       cls="rejected-init:configuration-changed",
+                       detail={"history": hist[-12:], "K": [int(obj.K), m.K],
+                               "Nr": [np.asarray(obj.Nr), m.Nr]})
+            except Exception as e:          # noqa: BLE001
+                ctx.ev("views-coherent", False, cls="rejected-init:raised-" + type(e).__name__,
+                       detail={"history": hist[-12:], "exc": repr(e)})
+                return
         elif op == "pathloss":
             m.pl = 10.0 ** rng.uniform(-3, 0, size=(m.K, m.K))
             plk = rng.random()
@@ -291,12 +318,30 @@ def case_history(ctx, rng, idx):
             obj.noise_var = m.noise
         elif op == "filter":
             m.W = [rand_c(rng, int(n), int(n)) for n in m.Nr]
+            if rng.random() < 0.3:
+                # filters of mixed kinds: an identity / a real matrix for some
+                # receivers, complex ones for the others
+                for k in range(len(m.W)):
+                    r = rng.random()
+                    if r < 0.35:
+                        m.W[k] = np.eye(int(m.Nr[k]))
+                    elif r < 0.6:
+                        m.W[k] = rng.standard_normal((int(m.Nr[k]), int(m.Nr[k])))
             obj.set_post_filter(list(m.W) if rng.random() < 0.5 else
                                 np.array(m.W + [None], dtype=object)[:-1])
         elif op == "filter=None":
             m.W = None
             obj.set_post_filter(None)
         hist.append(op)
+        snap = getattr(m, "noise_of_last_tx", "unset")
+        if op != "corrupt" and not isinstance(snap, str):
+            # until the next transmission, `last_noise` keeps reporting the noise of
+            # the last one -- whatever was re-configured meanwhile
+            ln = obj.last_noise
+            ctx.ev("last-noise", (ln is None and snap is None) or
+                   (ln is not None and snap is not None and np.array_equal(np.asarray(ln), snap)),
+                   cls="changed-without-a-transmission",
+                   detail={"history": hist[-12:], "after_op": op})
         if op in ("read1", "readall", "corrupt"):
             if len(hist) >= 2:
                 ctx.sig("ext" if ext else "plain", m.K, hist[-2], op)
